@@ -83,7 +83,8 @@ func firstCharOfInitialism(s string, i int) bool {
 	r2, _ := utf8.DecodeLastRuneInString(s[:i])
 
 	// need the equal to for when the rune is the last char in the string (ex: EnvVarA)
-	return len(s) >= i+rl1 && i >= 1 && unicode.IsUpper(r1) && unicode.IsLower(r2)
+	// a digit ends a word like a lower-case letter does (ex: oauth2*U*RL)
+	return len(s) >= i+rl1 && i >= 1 && unicode.IsUpper(r1) && (unicode.IsLower(r2) || unicode.IsDigit(r2))
 }
 
 // firstCharAfterInitialism, as used in DecodeGoCamelCase, attempts to
@@ -140,7 +141,6 @@ func decodeGoCamelCase(s string, isWordBoundary func(rune) bool) (DecodedIdentif
 					return words, nil
 				}
 			}
-			lastBoundary = i
 		}
 	}
 
